@@ -1,23 +1,23 @@
-\* exhaustive (quick), repaired flags: as MC with states created/dropped/tombstone (collections) and created/dropped (partitions); source time 10 min ahead of the local clock
+\* negative control: each record listing returns only its first page (1000 keys in store order); with a filler block of 1500 records in some gap of the key order TLC reports ContractMilvus / ContractKafka violated (records behind the block are not seen)
 SPECIFICATION Spec
 CHECK_DEADLOCK FALSE
 INVARIANTS TypeOK ContractMilvus ContractKafka
 CONSTANTS
-  DBs <- TwoDBs
+  DBs <- OneDB
   CNames <- OneC
   PNames <- OneP
   MaxInc = 2
-  MaxPInc = 1
+  MaxPInc = 2
   DbStates = {"live", "goneDown", "goneBoth"}
   CStates = {"created", "dropped", "tombstone"}
   PStates = {"created", "dropped"}
   Concrete <- NamesPlain
   Now = 100
-  Skews = {"ahead"}
-  FillGaps = "off"
-  FillN = 0
+  Skews = {"behind"}
+  FillGaps = "all"
+  FillN = 1500
   Page = 1000
-  ListTruncated = FALSE
+  ListTruncated = TRUE
   ClampLocal = FALSE
   FixStaleDb = TRUE
   LiveDbGuard = TRUE
